@@ -1,4 +1,320 @@
-//! C06 monitor (not written yet).
-use crate::ctx::Ctx;
+//! C06 — decoding arbitrary bytes never panics, crashes or over-allocates.
+use super::common::*;
+use crate::alloc;
+use crate::corpus::registry::{self as reg, DecOut};
+use crate::ctx::{catch, hex, on_thread, Ctx, PanicInfo};
+use crate::gen::hostile;
+use crate::gen::types::*;
+use crate::model::wire::{decode, DecErr};
+use crate::rng::{hash_bytes, hash_str, Rng};
+use crate::model::{REnv, RType};
+use candid::{DecoderConfig, IDLArgs};
+use serde_json::json;
 
-pub fn run(_ctx: &mut Ctx) {}
+/// Element-access steps allowed without a quota (the library documents unmetered decoding as unbounded;
+/// beyond this the no-quota region is not explored, see DESIGN §C06).
+const NO_QUOTA_STEP_LIMIT: u64 = 3_000_000;
+
+#[derive(Clone, Debug)]
+struct Conf {
+    dq: Option<usize>,
+    sq: Option<usize>,
+    full_msg: bool,
+    max_type_len: Option<usize>,
+    stack: usize,
+}
+
+fn gen_conf(rng: &mut Rng) -> Conf {
+    let q = |rng: &mut Rng| *rng.pick(&[0usize, 1, 100, 10_000, 1_000_000]);
+    let (dq, sq) = match rng.below(6) {
+        0 => (None, None),
+        1 | 2 => (Some(q(rng)), None),
+        3 => (None, Some(q(rng))),
+        _ => (Some(q(rng)), Some(q(rng))),
+    };
+    Conf {
+        dq,
+        sq,
+        full_msg: rng.bool(),
+        max_type_len: if rng.chance(1, 5) { Some(*rng.pick(&[0usize, 1, 10, 100])) } else { None },
+        stack: *rng.pick(&[256usize << 10, 512 << 10, 2 << 20, 8 << 20]),
+    }
+}
+fn to_cfg(c: &Conf) -> DecoderConfig {
+    let mut d = DecoderConfig::new();
+    if let Some(q) = c.dq {
+        d.set_decoding_quota(q);
+    }
+    if let Some(q) = c.sq {
+        d.set_skipping_quota(q);
+    }
+    d.set_full_error_message(c.full_msg);
+    if let Some(m) = c.max_type_len {
+        d.set_max_type_len(m);
+    }
+    d
+}
+
+#[derive(Clone)]
+enum Target {
+    Native(usize),
+    Untyped(REnv, Vec<RType>, String),
+    NoType,
+}
+
+struct Obs {
+    outcome: &'static str,
+    panic: Option<PanicInfo>,
+    steps: u64,
+    alloc: alloc::AllocStats,
+    err_len: usize,
+}
+
+fn observe(target: Target, bytes: Vec<u8>, conf: Conf) -> Obs {
+    let cfg = to_cfg(&conf);
+    let limit = match conf.dq {
+        Some(q) => (q as u64).saturating_add(bytes.len() as u64).saturating_add(64).saturating_mul(4),
+        None => NO_QUOTA_STEP_LIMIT,
+    };
+    let stack = conf.stack;
+    let r = on_thread(stack, move || {
+        candid::verif::reset(limit);
+        alloc::start();
+        let r = catch(|| match &target {
+            Target::Native(i) => match reg::with(*i, |t| t.decode(&bytes, &cfg)) {
+                DecOut::Ok { .. } => Ok(0usize),
+                DecOut::Err(_) => Ok(1),
+                DecOut::Panic(p) => Err(p),
+            },
+            Target::Untyped(env, ts, _) => {
+                let (cenv, cts) = candid_side(env, ts, None);
+                Ok(match IDLArgs::from_bytes_with_types_with_config(&bytes, &cenv, &cts, &cfg) {
+                    Ok(_) => 0,
+                    Err(_) => 1,
+                })
+            }
+            Target::Untyped(env, ts, _) if false => Ok(match IDLArgs::from_bytes_with_types_with_config(&bytes, &candid_side(env, ts, None).0, &[], &cfg) {
+                Ok(_) => 0,
+                Err(_) => 1,
+            }),
+            Target::NoType => Ok(match IDLArgs::from_bytes_with_config(&bytes, &cfg) {
+                Ok(_) => 0,
+                Err(_) => 1,
+            }),
+        });
+        let st = alloc::stop();
+        let steps = candid::verif::steps();
+        candid::verif::reset(u64::MAX);
+        (r, st, steps)
+    });
+    match r {
+        Err(p) => Obs {
+            outcome: "panic",
+            panic: Some(p),
+            steps: 0,
+            alloc: Default::default(),
+            err_len: 0,
+        },
+        Ok((r, st, steps)) => match r {
+            Err(p) | Ok(Err(p)) => Obs {
+                outcome: "panic",
+                panic: Some(p),
+                steps,
+                alloc: st,
+                err_len: 0,
+            },
+            Ok(Ok(n)) => Obs {
+                outcome: if n == 0 { "ok" } else { "err" },
+                panic: None,
+                steps,
+                alloc: st,
+                err_len: n,
+            },
+        },
+    }
+}
+
+fn judge(ctx: &mut Ctx, family: &str, target: &Target, bytes: &[u8], conf: &Conf) {
+    let tname = match target {
+        Target::Native(i) => reg::with(*i, |t| t.name()),
+        Target::Untyped(_, _, l) => l.clone(),
+        Target::NoType => "(no expected type)".into(),
+    };
+    let tkind = match target {
+        Target::Native(_) => "native",
+        Target::Untyped(..) => "untyped",
+        Target::NoType => "from_bytes",
+    };
+    let obs = observe(target.clone(), bytes.to_vec(), conf.clone());
+    let input = || json!({"family": family, "target": tname, "bytes": hex(bytes), "len": bytes.len(), "conf": format!("{conf:?}")});
+    ctx.count(&format!("outcome:{}", obs.outcome));
+    if let Some(p) = &obs.panic {
+        if p.message.contains(candid::verif::STEP_LIMIT_PANIC) {
+            match conf.dq {
+                None => {
+                    // unmetered decoding is unbounded by design; not explored beyond the step limit
+                    ctx.count("excluded:no-quota-beyond-step-limit");
+                }
+                Some(q) => ctx.violation(
+                    &format!("work-exceeds-quota|{tkind}|{family}"),
+                    &format!("more than 4*(q + |input| + 64) element accesses with decoding quota q = {q} on {} input bytes", bytes.len()),
+                    input(),
+                ),
+            }
+        } else {
+            ctx.violation(&format!("panic|{tkind}|{}", p.sig()), &format!("decoding panicked: {}", p.message), input());
+        }
+        return;
+    }
+    if let Some(q) = conf.dq {
+        let lim = q as u64 + bytes.len() as u64 + 64;
+        ctx.max("steps/(q+|input|+64)", obs.steps as f64 / lim as f64);
+        if obs.steps > lim {
+            ctx.violation(
+                &format!("work-exceeds-quota|{tkind}|{family}"),
+                &format!("{} element accesses with decoding quota {q} on {} input bytes (bound q + |input| + 64 = {lim})", obs.steps, bytes.len()),
+                input(),
+            );
+        }
+        // memory: constant + multiple of input + multiple of q
+        let peak_bound = (8u64 << 20) + 256 * bytes.len() as u64 + 512 * q as u64;
+        let req_bound = (8u64 << 20) + 256 * bytes.len() as u64 + 4096 * q as u64;
+        ctx.max("peak-live-bytes/bound", obs.alloc.peak_live.max(0) as f64 / peak_bound as f64);
+        ctx.max("requested-bytes/bound", obs.alloc.requested as f64 / req_bound as f64);
+        if obs.alloc.peak_live.max(0) as u64 > peak_bound {
+            ctx.violation(
+                &format!("memory-exceeds-bound|peak|{tkind}|{family}"),
+                &format!("peak live allocation {} bytes with quota {q} on {} input bytes (bound {peak_bound})", obs.alloc.peak_live, bytes.len()),
+                input(),
+            );
+        }
+        if obs.alloc.requested > req_bound {
+            ctx.violation(
+                &format!("memory-exceeds-bound|cumulative|{tkind}|{family}"),
+                &format!(
+                    "{} bytes requested from the allocator in {} calls with quota {q} on {} input bytes (bound {req_bound})",
+                    obs.alloc.requested,
+                    obs.alloc.calls,
+                    bytes.len()
+                ),
+                input(),
+            );
+        }
+    }
+    let _ = obs.err_len;
+}
+
+fn error_site(bytes: &[u8]) -> String {
+    match decode(bytes) {
+        Ok(_) => "wellformed".into(),
+        Err(DecErr::OverLimit(m)) => format!("over:{}", m.split_whitespace().take(3).collect::<Vec<_>>().join("-")),
+        Err(DecErr::Malformed(m)) => format!(
+            "mal:{}",
+            m.chars()
+                .filter(|c| !c.is_ascii_digit())
+                .collect::<String>()
+                .split_whitespace()
+                .take(4)
+                .collect::<Vec<_>>()
+                .join("-")
+        ),
+    }
+}
+
+pub fn run(ctx: &mut Ctx) {
+    let n_types = reg::len();
+    let tcfg = TypeCfg::default();
+    // the model decodes inputs to classify them; keep that bounded too
+    let pick_target = |rng: &mut Rng, tcfg: &TypeCfg| -> Target {
+        match rng.below(5) {
+            0 | 1 => Target::Native(rng.usize(n_types)),
+            2 | 3 => {
+                let env = gen_env(rng, tcfg);
+                let n = rng.usize(3);
+                let ts = gen_types(rng, tcfg, &env, n);
+                let label = format!("[{env}] {:?}", ts.iter().map(|t| t.to_string()).collect::<Vec<_>>());
+                Target::Untyped(env, ts, label)
+            }
+            _ => Target::NoType,
+        }
+    };
+    ctx.cases("mutated-native-messages", 0.3, |ctx, rng| {
+        let i = rng.usize(n_types);
+        let nargs = 1 + rng.usize(2);
+        let mut r2 = Rng::new(rng.next());
+        let Ok((bytes, _)) = reg::with(i, |t| t.encode_gen(&mut r2, 20, nargs)) else { return };
+        let bad = if rng.chance(1, 8) { bytes.clone() } else { hostile::mutate(rng, &bytes) };
+        // mostly decode at the type it came from, sometimes at another target
+        let target = if rng.chance(2, 3) { Target::Native(i) } else { pick_target(rng, &tcfg) };
+        let conf = gen_conf(rng);
+        judge(ctx, "mutated-native", &target, &bad, &conf);
+        ctx.nontrivial(hash_str(&format!("{}|{}", error_site(&bad), matches!(target, Target::Native(_)))));
+        ctx.sample(|| json!({"bytes": hex(&bad), "conf": format!("{conf:?}")}));
+    });
+    ctx.cases("mutated-wire-messages", 0.25, |ctx, rng| {
+        let Some(wc) = gen_wire_case(rng, &tcfg, 3, 30, true) else { return };
+        let bad = hostile::mutate(rng, &wc.bytes);
+        let target = if rng.bool() {
+            let (eenv, ets, _) = gen_expected(rng, &tcfg, &wc);
+            let label = format!("[{eenv}] {:?}", ets.iter().map(|t| t.to_string()).collect::<Vec<_>>());
+            Target::Untyped(eenv, ets, label)
+        } else {
+            pick_target(rng, &tcfg)
+        };
+        let conf = gen_conf(rng);
+        judge(ctx, "mutated-wire", &target, &bad, &conf);
+        ctx.nontrivial(hash_str(&format!("{}|w", error_site(&bad))));
+    });
+    ctx.cases("crafted-bombs", 0.3, |ctx, rng| {
+        let (bytes, fam) = hostile::crafted(rng);
+        let target = pick_target(rng, &tcfg);
+        let mut conf = gen_conf(rng);
+        // bombs are the reason quotas exist: most runs use one
+        if conf.dq.is_none() && rng.chance(2, 3) {
+            conf.dq = Some(*rng.pick(&[100usize, 10_000, 1_000_000]));
+        }
+        judge(ctx, fam, &target, &bytes, &conf);
+        ctx.count(&format!("cover:crafted:{fam}"));
+        ctx.nontrivial(hash_bytes(&bytes[..bytes.len().min(64)]) ^ hash_str(fam));
+    });
+    ctx.cases("pending-args-times-optionals", 0.05, |ctx, rng| {
+        // table [opt nat8, vec #0]; args = [vec, M x null]; N present optional elements
+        let m = *rng.pick(&[0usize, 10, 1000, 10_000]);
+        let n = *rng.pick(&[10usize, 1000, 20_000, 50_000]);
+        let mut b = b"DIDL\x02\x6e\x7b\x6d\x00".to_vec();
+        b.extend(crate::model::leb::leb_u64(1 + m as u64));
+        b.push(0x01);
+        b.extend(std::iter::repeat(0x7f).take(m));
+        b.extend(crate::model::leb::leb_u64(n as u64));
+        for k in 0..n {
+            b.push(1);
+            b.push(k as u8);
+        }
+        let target = Target::Native(0); // decoded at a type that skips everything but the shape matters little
+        let mut conf = gen_conf(rng);
+        conf.dq = Some(2_000_000);
+        conf.sq = None;
+        conf.stack = 8 << 20;
+        let vec_opt_u8 = (0..n_types).find(|i| reg::with(*i, |t| t.name()) == "Vec<Option<u8>>");
+        let target = vec_opt_u8.map(Target::Native).unwrap_or(target);
+        // size the quota from the cost the decoder itself reports for this message: the bounds are then
+        // judged against the smallest quota that lets the message through
+        if let Target::Native(i) = &target {
+            let mut big = DecoderConfig::new();
+            big.set_decoding_quota(1 << 40);
+            if let DecOut::Ok { cost, .. } = reg::with(*i, |t| t.decode(&b, &big)) {
+                conf.dq = cost.decoding_quota.map(|c| c + 1);
+            }
+        }
+        judge(ctx, "pending-args-x-optionals", &target, &b, &conf);
+        ctx.count(&format!("cover:pending={m},optionals={n}"));
+        ctx.nontrivial(hash_str(&format!("pa|{m}|{n}")));
+    });
+    ctx.cases("random-after-magic", 0.1, |ctx, rng| {
+        let bytes = hostile::random_after_magic(rng);
+        let target = pick_target(rng, &tcfg);
+        let conf = gen_conf(rng);
+        judge(ctx, "random", &target, &bytes, &conf);
+        ctx.nontrivial(hash_str(&format!("{}|r", error_site(&bytes))));
+    });
+}
